@@ -142,8 +142,10 @@ impl Ty {
             Ty::Opt(t) => format!("Option<{}>", t.rust(params, assocs)),
             Ty::Vec(t) => format!("Vec<{}>", t.rust(params, assocs)),
             Ty::Tup2(a, b) => format!("({}, {})", a.rust(params, assocs), b.rust(params, assocs)),
-            Ty::Map(t) => format!("BTreeMap<String, {}>", t.rust(params, assocs)),
-            Ty::Boxed(t) => format!("Box<{}>", t.rust(params, assocs)),
+            // written with module-qualified paths (a type parameter inside the generic arguments
+            // of a multi-segment path is still a use of that parameter)
+            Ty::Map(t) => format!("std::collections::BTreeMap<String, {}>", t.rust(params, assocs)),
+            Ty::Boxed(t) => format!("std::boxed::Box<{}>", t.rust(params, assocs)),
             Ty::Param(i) => params[*i].clone(),
             Ty::Assoc(i) => assocs[*i].clone(),
         }
